@@ -55,6 +55,13 @@ func main() {
 			os.Exit(2)
 		}
 		dumpWalk(p, os.Args[2], os.Args[3], len(os.Args) > 4)
+	case "dump-init":
+		p, err := Load(repoDir(), nil)
+		if err != nil {
+			fmt.Fprintln(os.Stderr, err)
+			os.Exit(2)
+		}
+		dumpInit(p, os.Args[2])
 	case "dump-kinds":
 		p, err := Load(repoDir(), nil)
 		if err != nil {
